@@ -37,11 +37,13 @@ FLOORS = {
     "quick": {"paths": 150000, "res_blank": 100000, "res_node": 1000, "res_partial_leaf": 4000,
               "res_partial_ext": 600, "traverse_from": 50000, "read_bound_checks": 50000,
               "simulated_ext_followed": 600, "moving_root_node_checks": 5000, "moving_after_batch": 500,
-              "moving_in_batch": 500, "moving_root_reassigned": 300, "moving_traverse_from": 5000},
+              "moving_in_batch": 500, "moving_root_reassigned": 300, "moving_traverse_from": 5000,
+              "paths_in_other_sequence_types": 1, "prefix_plus_library_segment": 1},
     "thorough": {"paths": 1500000, "res_blank": 1000000, "res_node": 10000, "res_partial_leaf": 40000,
                  "res_partial_ext": 6000, "traverse_from": 500000, "read_bound_checks": 500000,
                  "simulated_ext_followed": 6000, "moving_root_node_checks": 50000, "moving_after_batch": 5000,
-                 "moving_in_batch": 5000, "moving_root_reassigned": 3000, "moving_traverse_from": 50000},
+                 "moving_in_batch": 5000, "moving_root_reassigned": 3000, "moving_traverse_from": 50000,
+                 "paths_in_other_sequence_types": 1, "prefix_plus_library_segment": 1},
 }
 
 
@@ -79,6 +81,29 @@ def hops_below(ref, q, full):
     return sum(1 for prefix, _ in ref.path_nodes(full) if len(prefix) > len(q))
 
 
+def _array(p):
+    from array import array
+    return array("B", p)
+
+
+def _memoryview(p):
+    return memoryview(bytes(p))
+
+
+def _deque(p):
+    from collections import deque
+    return deque(p)
+
+
+def _userlist(p):
+    from collections import UserList
+    return UserList(p)
+
+
+# a path is a Sequence[int] (trie.typing.NibblesInput): the forms a caller may hold one in
+FORMS = [list, tuple, Nibbles, list, tuple, Nibbles, _deque, _userlist, _array, _memoryview]
+
+
 def run_case(case, ctx):
     if case.get("engine") == "hh":
         return run_moving(case, ctx)
@@ -95,7 +120,10 @@ def run_case(case, ctx):
     walk = {}
     for p in sorted(paths):
         db.reset_counts()
-        res = cut(t.traverse, [list, tuple, Nibbles][len(p) % 3](p), expect=(TraversedPartialPath,))
+        form = FORMS[(len(p) + sum(p)) % len(FORMS)]
+        res = cut(t.traverse, form(p), expect=(TraversedPartialPath,))
+        if form not in (list, tuple, Nibbles):
+            ctx.count("paths_in_other_sequence_types")
         got = describe(res)
         exp = expected(ref, p)
         if got != exp:
@@ -126,7 +154,11 @@ def run_case(case, ctx):
         for k, _ in ref.items:
             if k[: len(q)] == q:
                 rest = k[len(q):]
-                for j in range(len(rest) + 1):
+                js = range(len(rest) + 1)
+                if len(rest) > 80:
+                    # very long keys: both ends and a sample of the middle
+                    js = sorted(set(range(12)) | set(range(len(rest) - 11, len(rest) + 1)) | set(rnd.sample(range(len(rest)), 16)))
+                for j in js:
                     subs.add(rest[:j])
                     subs.add(rest[:j] + (rnd.randrange(16),))
                 subs.add(rest + (1,))
@@ -136,7 +168,7 @@ def run_case(case, ctx):
         # deep-to-shallow - the node belongs to the caller and must come out of it unchanged
         for s in sorted(subs) + sorted(subs, reverse=True):
             db.reset_counts()
-            form = [list, tuple, Nibbles][(len(s) + len(q)) % 3]      # the segment as a list / tuple / Nibbles
+            form = FORMS[(len(s) + len(q) + sum(s)) % len(FORMS)]      # the segment as a list / tuple / Nibbles / other sequence
             a = describe(cut(t.traverse_from, node, form(s), expect=(TraversedPartialPath,)))
             reads = db.reads
             b = describe(cut(t.traverse, q + s, expect=(TraversedPartialPath,)))
@@ -149,6 +181,21 @@ def run_case(case, ctx):
                 raise Violation("traverse-from-reads", "traverse_from(node@%r, %r) issued %d database reads for %d child hop(s)" % (q, s, reads, hops))
             ctx.count("traverse_from")
             ctx.count("read_bound_checks")
+        # "prefix + segment" as a caller writes it: the prefix a plain tuple (or a Nibbles), the
+        # segment the very object the library listed in sub_segments
+        for seg in node.sub_segments:
+            for pre in (q, Nibbles(q)):
+                full = pre + seg
+                if tuple(int(x) for x in full) != q + tuple(int(x) for x in seg):
+                    raise Violation("traverse-from", "prefix + segment: %r + %r (a %s and the library's own sub-segment, a %s) gives %r" % (
+                        q, tuple(seg), type(pre).__name__, type(seg).__name__, tuple(full)))
+                a = describe(cut(t.traverse_from, node, seg, expect=(TraversedPartialPath,)))
+                b = describe(cut(t.traverse, full, expect=(TraversedPartialPath,)))
+                if a[0] == "partial":
+                    a = (a[0], a[1], q + a[2], a[3], a[4])
+                if a != b:
+                    raise Violation("traverse-from", "traverse_from(node@%r, %r) = %r but traverse(prefix + segment) = %r" % (q, tuple(seg), a, b))
+                ctx.count("prefix_plus_library_segment")
         fresh = cut(t.traverse, q, expect=(TraversedPartialPath,))
         if isinstance(fresh, Raised) or _plain(node.raw) != _plain(fresh.raw) or hs.pub(node) != hs.pub(fresh):
             raise Violation("traverse-from-mutated-node", "after the traverse_from calls the caller's node object for %r no longer equals traverse(%r): raw %r vs %r" % (
